@@ -672,7 +672,7 @@ def exhaustive_mask_cases(rng) -> list[dict]:
 def collect_cases(ctx, n: int, max_periods: int, notes: dict) -> list:
     """Generate cases and run the implementation on them; keep the well-conditioned stationary ones."""
     out = []
-    if ctx.thorough and n >= 1000:
+    if ctx.thorough and n >= 1000:      # (VERIF_KF_CASES below 1000 skips it: development runs)
         for case in exhaustive_mask_cases(ctx.rng):
             try:
                 impl = run_impl(case)
